@@ -456,9 +456,19 @@ static void spec_boolean(Rng& g, int rounds) {
         // ---- BooleanOp64
         {
           int64_t *cs = in64(g, s), *cso = in64(g, so), *cc = in64(g, c);
-          int64_t *sol = nullptr, *solo = nullptr;
+          // the out-parameters arrive holding a stale value half of the time (a caller re-using its variables): an accepted
+          // call must rewrite both
+          static int64_t stale64[4] = {4, 0, 0, 0};
+          bool stale = g.coin();
+          int64_t *sol = stale ? stale64 : nullptr, *solo = stale ? stale64 : nullptr;
           int rc = BooleanOp64((uint8_t)ct, (uint8_t)fr, cs, cso, cc, sol, solo, a.pc, a.rs);
           stat("calls.BooleanOp64");
+          if (stale) stat("calls.BooleanOp64.stale_out_parameters");
+          if (rc == 0 && (sol == stale64 || solo == stale64)) {
+            emitF("export.BooleanOp64.out_parameter_not_rewritten", std::string(sol == stale64 ? "solution " : "") + (solo == stale64 ? "solution_open " : "") + "still holds the caller's old value after an accepted call: " + S(a) + " " + inp);
+            if (sol == stale64) sol = nullptr; if (solo == stale64) solo = nullptr;
+          }
+          if (rc != 0) { if (sol == stale64) sol = nullptr; if (solo == stale64) solo = nullptr; }
           Paths64 nsol, nsolo; native_bool64(a, s, so, c, nsol, nsolo, nullptr);
           if (rc != 0) emitF("export.BooleanOp64.returncode", "returned " + I(rc) + " for " + S(a) + " " + inp);
           else {
@@ -514,9 +524,16 @@ static void spec_boolean(Rng& g, int rounds) {
         CUR("BooleanOpD/BooleanOp_PolyTreeD " + S(a) + " subjects=" + vpsD(sd) + " open=" + vpsD(sod) + " clips=" + vpsD(cd));
         {
           double *cs = inD(g, sd), *cso = inD(g, sod), *cc = inD(g, cd);
-          double *sol = nullptr, *solo = nullptr;
+          static double staleD[4] = {4, 0, 0, 0};
+          bool stale = g.coin();
+          double *sol = stale ? staleD : nullptr, *solo = stale ? staleD : nullptr;
           int rc = BooleanOpD((uint8_t)a.ct, (uint8_t)a.fr, cs, cso, cc, sol, solo, prec, a.pc, a.rs);
           stat("calls.BooleanOpD");
+          if (rc == 0 && (sol == staleD || solo == staleD)) {
+            emitF("export.BooleanOpD.out_parameter_not_rewritten", std::string(sol == staleD ? "solution " : "") + (solo == staleD ? "solution_open " : "") + "still holds the caller's old value after an accepted call: " + S(a));
+            if (sol == staleD) sol = nullptr; if (solo == staleD) solo = nullptr;
+          }
+          if (rc != 0) { if (sol == staleD) sol = nullptr; if (solo == staleD) solo = nullptr; }
           PathsD nsol, nsolo; native_boolD(a, sd, sod, cd, nsol, nsolo, nullptr);
           if (rc != 0) emitF("export.BooleanOpD.returncode", "returned " + I(rc) + " for " + S(a));
           else {
